@@ -522,6 +522,70 @@ fn read_all(path: &Path) -> Result<Vec<Event>, String> {
 
 /* ------------------------------------- one journal ------------------------------------------ */
 
+/// Inserts allocation-queue and allocation records at random positions (deterministic in `seed`).
+/// Prune points are record indices: they are shifted by the records inserted before them.
+pub fn splice_queue_records(events: &[Event], prune_points: &[(usize, Vec<u32>, Vec<u32>)], seed: u64, rep: &mut Rep) -> (Vec<Event>, Vec<(usize, Vec<u32>, Vec<u32>)>) {
+    let mut rng = Rng::new(seed);
+    if events.len() < 3 || rng.chance(30, 100) {
+        return (events.to_vec(), prune_points.to_vec());
+    }
+    let n = rng.range(1, 8) as usize;
+    // positions (after the first record, which is ServerStart) in ascending order
+    let mut positions: Vec<usize> = (0..n).map(|_| rng.range(1, events.len() as u64) as usize).collect();
+    positions.sort_unstable();
+    let mut out: Vec<Event> = Vec::with_capacity(events.len() + n);
+    let mut next_queue = 1u32;
+    let mut live: Vec<u32> = Vec::new();
+    let mut allocs: Vec<(u32, String)> = Vec::new();
+    let mut inserted_before: Vec<usize> = vec![0; events.len() + 1];
+    let mut k = 0usize;
+    let mut count = 0usize;
+    for (i, e) in events.iter().enumerate() {
+        while k < positions.len() && positions[k] == i {
+            k += 1;
+            let payload = match rng.below(6) {
+                0 | 1 => {
+                    let id = next_queue;
+                    next_queue += 1;
+                    live.push(id);
+                    EventPayload::AllocationQueueCreated(id, Box::new(crate::queueids::params(id)))
+                }
+                2 if !live.is_empty() => {
+                    let id = live.remove(rng.usize_below(live.len()));
+                    EventPayload::AllocationQueueRemoved(id)
+                }
+                3 | 4 if !live.is_empty() => {
+                    let q = *rng.pick(&live);
+                    let a = format!("a{}", allocs.len() + 1);
+                    allocs.push((q, a.clone()));
+                    EventPayload::AllocationQueued { queue_id: q, allocation_id: a, worker_count: 1 }
+                }
+                5 if !allocs.is_empty() => {
+                    let (q, a) = rng.pick(&allocs).clone();
+                    if rng.chance(50, 100) { EventPayload::AllocationStarted(q, a) } else { EventPayload::AllocationFinished(q, a) }
+                }
+                _ => {
+                    let id = next_queue;
+                    next_queue += 1;
+                    live.push(id);
+                    EventPayload::AllocationQueueCreated(id, Box::new(crate::queueids::params(id)))
+                }
+            };
+            out.push(Event::at(e.time, payload));
+            count += 1;
+            rep.c("queue_records_spliced", 1);
+        }
+        inserted_before[i] = count;
+        out.push(e.clone());
+    }
+    inserted_before[events.len()] = count;
+    let pp = prune_points.iter().map(|(len, j, w)| (len + inserted_before[(*len).min(events.len())], j.clone(), w.clone())).collect();
+    if count > 0 {
+        rep.c("journals_with_queue_records", 1);
+    }
+    (out, pp)
+}
+
 pub fn check_journal(events: &[Event], prune_points: &[(usize, Vec<u32>, Vec<u32>)], dir: &Path, rng: &mut Rng, n_torn: u64, rep: &mut Rep) {
     let full = dir.join("full.journal");
     let Ok(bounds) = write_journal(&full, events) else {
@@ -720,21 +784,21 @@ pub fn main(args: &[String]) -> i32 {
     let mut rng = Rng::new(rng::hash3(seed, shard, 4242));
 
     // regression corpus (shard 0): witnesses of earlier findings are replayed first
-    let mut regress: Vec<(String, Vec<Action>, bool)> = Vec::new();
+    let mut regress: Vec<(String, Vec<Action>, bool, Option<u64>)> = Vec::new();
     if shard == 0 {
         if let Some(dir) = a.get("regress") {
             let mut files: Vec<_> = std::fs::read_dir(dir).map(|d| d.filter_map(|e| e.ok()).map(|e| e.path()).collect()).unwrap_or_default();
             files.sort();
             for f in files {
                 let name = f.file_name().unwrap().to_string_lossy().to_string();
-                if !(name.starts_with("C10") || name.starts_with("C11") || name.starts_with("C12")) || !name.ends_with(".json") {
+                if !(name.starts_with("C10") || name.starts_with("C11") || name.starts_with("C12") || name.starts_with(prop.as_str())) || !name.ends_with(".json") {
                     continue;
                 }
                 let Ok(text) = std::fs::read_to_string(&f) else { continue };
                 let Ok(v) = serde_json::from_str::<serde_json::Value>(&text) else { continue };
                 let case = &v["case"];
                 let Ok(actions) = serde_json::from_value::<Vec<Action>>(case["actions"].clone()) else { continue };
-                regress.push((name, actions, case["with_crash"].as_bool().unwrap_or(false)));
+                regress.push((name, actions, case["with_crash"].as_bool().unwrap_or(false), case["splice_seed"].as_u64()));
             }
         }
     }
@@ -754,8 +818,11 @@ pub fn main(args: &[String]) -> i32 {
             runs -= 1;
             break;
         }
-        let r = if let Some((_name, actions, wc)) = next {
+        let mut splice_seed: Option<u64> = Some(rng::mix(s ^ 0x5171));
+        let r = if let Some((_name, actions, wc, sp)) = next {
             with_crash = wc;
+            // witnesses recorded before queue records were spliced in carry no seed: replay them as they were
+            splice_seed = sp;
             run_in_runtime(Source::Replay { actions, profile }, true)
         } else {
             if with_crash {
@@ -801,7 +868,13 @@ pub fn main(args: &[String]) -> i32 {
                 }
             }
         } else {
-            check_journal(&r.journal, &r.prune_points, &dir, &mut rng, n_torn, &mut rep);
+            // the autoalloc service does not run inside E1: queue/allocation records (independent of
+            // the job records) are spliced into the journal at random positions
+            let (journal, prune_points) = match splice_seed {
+                Some(sp) => splice_queue_records(&r.journal, &r.prune_points, sp, &mut rep),
+                None => (r.journal.clone(), r.prune_points.clone()),
+            };
+            check_journal(&journal, &prune_points, &dir, &mut rng, n_torn, &mut rep);
             rep.c("journals", 1);
             rep.c("journal_records", r.journal.len() as u64);
         }
@@ -815,7 +888,7 @@ pub fn main(args: &[String]) -> i32 {
             violated += 1;
             for (_, rule, detail) in mine {
                 if seen.insert(rule.clone()) {
-                    let path = save_replay_value(&replay_dir, &prop, rule, s, &json!({"run_seed": s, "profile": "C10", "with_crash": with_crash, "actions": r.actions}));
+                    let path = save_replay_value(&replay_dir, &prop, rule, s, &json!({"run_seed": s, "profile": "C10", "with_crash": with_crash, "actions": r.actions, "splice_seed": splice_seed}));
                     violations.push(json!({"signature": rule, "detail": detail, "seed": s, "source": "generated", "replay": path}));
                 }
             }
@@ -843,10 +916,10 @@ pub fn main(args: &[String]) -> i32 {
         _ => "prune requests issued through the real client request inside simulation runs give (record index, live sets); the real journal thread prunes a copy of the journal (tmp file, rename, reopen), records are appended, and restore(pruned) is compared with restore(unpruned); non-trivial = at least one prune executed",
     };
     let minima = match prop.as_str() {
-        "C10" => json!({"cuts_compared": 3000, "pending_tasks_checked": 10000, "pending_tasks_started_before": 200, "pending_tasks_with_deps": 200, "torn_tails": 100, "crash_runs.restarts": 10}),
+        "C10" => json!({"cuts_compared": 3000, "pending_tasks_checked": 10000, "pending_tasks_started_before": 200, "pending_tasks_with_deps": 200, "torn_tails": 100, "crash_runs.restarts": 10, "journals_with_queue_records": 40}),
         "C11" => json!({"cuts_compared": 3000, "cuts_highest_job_gone": 20, "crash_runs.restarts": 10}),
         "C03" | "C06" | "C07" => json!({}),
-        _ => json!({"prunes": 20, "prunes_with_pending_tasks": 10, "prunes_that_removed_records": 10}),
+        _ => json!({"prunes": 20, "prunes_with_pending_tasks": 10, "prunes_that_removed_records": 10, "journals_with_queue_records": 40}),
     };
     let summary = json!({
         "prop": prop, "shard": shard, "seed": seed, "runs": runs, "steps": steps,
@@ -861,7 +934,7 @@ pub fn main(args: &[String]) -> i32 {
         "rule": rule,
         "minima": minima,
         "assumptions": [
-            "journals come from the simulation (E1); queue records are not produced there (the autoalloc service is not running inside E1)",
+            "journals come from the simulation (E1); the autoalloc service does not run there, so allocation-queue and allocation records (which restore and prune treat independently of job records) are spliced into 70 % of the journals at random positions",
             "the reference fold (src/journal.rs) is small but trusted; a crash count is accepted if it equals the strict (root worker) or the lenient (any member of a multi-node task) reading",
             "crash points are record boundaries and byte offsets inside records of a journal whose earlier part is intact (no corruption in the middle)"
         ],
